@@ -23,7 +23,13 @@ type parser struct {
 	depth    int
 }
 
-const maxSyntaxDepth = 150
+const (
+	// maxSyntaxDepth bounds syntactic nesting (real Lua's limit is 200 levels).
+	maxSyntaxDepth = 150
+	// maxChain bounds left-deep expression trees (a+b+c+..., f()()()...), which are parsed
+	// iteratively but evaluated recursively.
+	maxChain = 4000
+)
 
 func parseChunk(src string) *funcProto {
 	if strings.HasPrefix(src, "#!") {
@@ -512,10 +518,13 @@ func (p *parser) subExpr(limit int) expr {
 	default:
 		left = p.simpleExpr()
 	}
-	for {
+	for n := 0; ; n++ {
 		op, ok := p.binOp()
 		if !ok || binPrio[op].left <= limit {
 			return left
+		}
+		if n > maxChain {
+			unsupported("operator chain longer than the interpreter's limit")
 		}
 		oline := p.tok.line
 		p.advance()
@@ -590,7 +599,10 @@ func (p *parser) primaryExpr() expr {
 	default:
 		p.fail("unexpected symbol near " + p.tokText())
 	}
-	for {
+	for n := 0; ; n++ {
+		if n > maxChain {
+			unsupported("suffix chain longer than the interpreter's limit")
+		}
 		line = p.tok.line
 		switch {
 		case p.isOp("."):
